@@ -30,6 +30,8 @@ Lemma chk_sem_true : forallb sem_ok pulse_gates = true. Proof. vm_compute. refle
 Definition method_area (name : string) : option ex :=
   match SpinChain.assoc name gate_methods with
   | Some (MRot _ _) => Some rot_area | Some (MSwap a) => Some a | _ => None end.
+(* the area expression of a gate name, whatever its syntactic form in the source *)
+Definition area_of (name : string) : ex := match method_area name with Some a => a | None => Num 0 end.
 Definition pulse_sgate (c : cfg) (name : string) (lb : label) : option sgate :=
   match control_of c lb, family_of (fst lb), method_area name with
   | Some (k, ts), Some f, Some ar =>
@@ -46,9 +48,9 @@ Definition wf_pulse_gate (c : cfg) (g : ngate) : Prop :=
   In (g_name g) pulse_gates /\ NoDup (g_targets g) /\ Forall (fun t => (t < c_n c)%nat) (g_targets g) /\
   match gate_cal (g_name g) with Some (k, _, _) => length (g_targets g) = hqubits k | None => False end.
 
-Lemma family_sx : find_family "sx" ctrl_families 0 = Some (0%nat, mkCF "sx" HX (Mul (Num 2) Pi) IN [ILoop]).
+Lemma family_sx : find_family "sx" ctrl_families 0 = Some (0%nat, mkCF "sx" HX (fam_scale "sx") IN [ILoop]).
 Proof. reflexivity. Qed.
-Lemma family_sz : find_family "sz" ctrl_families 0 = Some (1%nat, mkCF "sz" HZ (Mul (Num 2) Pi) IN [ILoop]).
+Lemma family_sz : find_family "sz" ctrl_families 0 = Some (1%nat, mkCF "sz" HZ (fam_scale "sz") IN [ILoop]).
 Proof. reflexivity. Qed.
 
 Lemma control_1q c p k fam j : find_family p ctrl_families 0 = Some (k, fam) -> cf_count fam = IN -> cf_targets fam = [ILoop] ->
@@ -126,15 +128,15 @@ Proof.
   destruct g as [name ts arg]. cbn [g_name g_targets] in *.
   unfold pulse_gates in Hin. cbn in Hin. destruct Hin as [<-|[<-|[<-|[<-|[]]]]].
   - (* ISWAP *)
-    change (gate_cal "ISWAP") with (Some (HXY, Mul (Num 2) Pi, Div (Neg (Num 1)) (Num 8))) in Hlen. cbn [hqubits] in Hlen.
+    change (gate_cal "ISWAP") with (Some (HXY, fam_scale "g", area_of "ISWAP")) in Hlen. cbn [hqubits] in Hlen.
     destruct ts as [|x [|y [|? ?]]]; try discriminate.
     unfold compile_gate in Hc. cbn [g_name] in Hc.
-    change (SpinChain.assoc "ISWAP" gate_methods) with (Some (MSwap (Div (Neg (Num 1)) (Num 8)))) in Hc. cbv beta iota in Hc.
+    change (SpinChain.assoc "ISWAP" gate_methods) with (Some (MSwap (area_of "ISWAP"))) in Hc. cbv beta iota in Hc.
     destruct (swap_compiles_coupled c (mkG "ISWAP" [x; y] arg) _ _ Hs Hr Hc) as [q1 [q2 [lb' [co' [du [tz [H1 [H2 [Hcp [Hi [Hctl Ho]]]]]]]]]]].
     injection Hi as <- <- <-. cbn [g_targets zmin zmax fold_left] in H1, H2. injection H1 as <-. injection H2 as <-.
     assert (Hxy : x <> y) by (inversion Hnd as [|? ? Hn _]; intro E; apply Hn; left; symmetry; exact E).
-    destruct (sem_ok_2q "ISWAP" _ _ _ _ x y eq_refl eq_refl Hok eq_refl Hxy) as [ph [Hph E12]].
-    assert (Hfam : family_of (fst lb) = Some (mkCF "g" HXY (Mul (Num 2) Pi) INumCoupling [ILoop; IMod (IAdd ILoop (IConst 1)) IN])).
+    destruct (sem_ok_2q "ISWAP" HXY (fam_scale "g") (area_of "ISWAP") _ x y eq_refl eq_refl Hok eq_refl Hxy) as [ph [Hph E12]].
+    assert (Hfam : family_of (fst lb) = Some (mkCF "g" HXY (fam_scale "g") INumCoupling [ILoop; IMod (IAdd ILoop (IConst 1)) IN])).
     { unfold swap_compiler in Hc. destruct (swap_label c _) as [l0|] eqn:El; [|discriminate]. cbn [rbind] in Hc.
       assert (lb = l0).
       { repeat match type of Hc with rbind ?x _ = _ => destruct x; cbn [rbind] in Hc; [|discriminate] end.
@@ -144,42 +146,42 @@ Proof.
       destruct (_ =? 1)%Z; [|destruct (_ && _ && _)%bool; [|discriminate]];
         (destruct (ieval _ _); [|discriminate]; injection El as <-; cbn [fst]; rewrite family_g; reflexivity). }
     unfold pulse_sgate, native_sgate. cbn [g_name g_targets]. rewrite Hctl, Hfam.
-    change (method_area "ISWAP") with (Some (Div (Neg (Num 1)) (Num 8))). cbn [cf_scale cf_kind] in Hph |- *. rewrite Hph.
+    change (method_area "ISWAP") with (Some (area_of "ISWAP")). cbn [cf_scale cf_kind] in Hph |- *. rewrite Hph.
     change (lib_matrix "ISWAP") with (Some fn_iswap).
     eexists. eexists. split; [reflexivity|]. split; [reflexivity|].
     destruct (pair_of_minmax x y Hxy) as [[Ea Eb]|[Ea Eb]]; destruct Ho as [->| ->]; cbn [map]; rewrite Ea, Eb, !Nat2Z.id; intros R A; apply (E12 R A).
   - (* RX *)
-    change (gate_cal "RX") with (Some (HX, Mul (Num 2) Pi, rot_area)) in Hlen. cbn [hqubits] in Hlen.
+    change (gate_cal "RX") with (Some (HX, fam_scale "sx", rot_area)) in Hlen. cbn [hqubits] in Hlen.
     destruct ts as [|t [|? ?]]; try discriminate.
     unfold compile_gate in Hc. cbn [g_name] in Hc. change (SpinChain.assoc "RX" gate_methods) with (Some (MRot "sx" "sx")) in Hc. cbv beta iota in Hc.
     rewrite (rotation_label c (mkG "RX" [t] arg) _ _ _ _ _ t eq_refl Hc).
-    destruct (sem_ok_1q "RX" _ _ _ _ t eq_refl eq_refl Hok eq_refl) as [ph [Hph E]].
+    destruct (sem_ok_1q "RX" HX (fam_scale "sx") rot_area _ t eq_refl eq_refl Hok eq_refl) as [ph [Hph E]].
     unfold pulse_sgate, native_sgate, family_of. cbn [fst g_name g_targets].
     rewrite (control_1q c "sx" _ _ (Z.of_nat t) family_sx eq_refl eq_refl) by (inversion Hr; lia).
     rewrite family_sx. change (method_area "RX") with (Some rot_area). cbn [cf_scale cf_kind] in Hph |- *. rewrite Hph.
     change (lib_matrix "RX") with (Some (msubst [Var 0] fn_rx)).
     eexists. eexists. split; [reflexivity|]. split; [reflexivity|]. cbn [map]. rewrite Nat2Z.id. exact E.
   - (* RZ *)
-    change (gate_cal "RZ") with (Some (HZ, Mul (Num 2) Pi, rot_area)) in Hlen. cbn [hqubits] in Hlen.
+    change (gate_cal "RZ") with (Some (HZ, fam_scale "sz", rot_area)) in Hlen. cbn [hqubits] in Hlen.
     destruct ts as [|t [|? ?]]; try discriminate.
     unfold compile_gate in Hc. cbn [g_name] in Hc. change (SpinChain.assoc "RZ" gate_methods) with (Some (MRot "sz" "sz")) in Hc. cbv beta iota in Hc.
     rewrite (rotation_label c (mkG "RZ" [t] arg) _ _ _ _ _ t eq_refl Hc).
-    destruct (sem_ok_1q "RZ" _ _ _ _ t eq_refl eq_refl Hok eq_refl) as [ph [Hph E]].
+    destruct (sem_ok_1q "RZ" HZ (fam_scale "sz") rot_area _ t eq_refl eq_refl Hok eq_refl) as [ph [Hph E]].
     unfold pulse_sgate, native_sgate, family_of. cbn [fst g_name g_targets].
     rewrite (control_1q c "sz" _ _ (Z.of_nat t) family_sz eq_refl eq_refl) by (inversion Hr; lia).
     rewrite family_sz. change (method_area "RZ") with (Some rot_area). cbn [cf_scale cf_kind] in Hph |- *. rewrite Hph.
     change (lib_matrix "RZ") with (Some (msubst [Var 0] fn_rz)).
     eexists. eexists. split; [reflexivity|]. split; [reflexivity|]. cbn [map]. rewrite Nat2Z.id. exact E.
   - (* SQRTISWAP *)
-    change (gate_cal "SQRTISWAP") with (Some (HXY, Mul (Num 2) Pi, Div (Neg (Num 1)) (Num 16))) in Hlen. cbn [hqubits] in Hlen.
+    change (gate_cal "SQRTISWAP") with (Some (HXY, fam_scale "g", area_of "SQRTISWAP")) in Hlen. cbn [hqubits] in Hlen.
     destruct ts as [|x [|y [|? ?]]]; try discriminate.
     unfold compile_gate in Hc. cbn [g_name] in Hc.
-    change (SpinChain.assoc "SQRTISWAP" gate_methods) with (Some (MSwap (Div (Neg (Num 1)) (Num 16)))) in Hc. cbv beta iota in Hc.
+    change (SpinChain.assoc "SQRTISWAP" gate_methods) with (Some (MSwap (area_of "SQRTISWAP"))) in Hc. cbv beta iota in Hc.
     destruct (swap_compiles_coupled c (mkG "SQRTISWAP" [x; y] arg) _ _ Hs Hr Hc) as [q1 [q2 [lb' [co' [du [tz [H1 [H2 [Hcp [Hi [Hctl Ho]]]]]]]]]]].
     injection Hi as <- <- <-. cbn [g_targets zmin zmax fold_left] in H1, H2. injection H1 as <-. injection H2 as <-.
     assert (Hxy : x <> y) by (inversion Hnd as [|? ? Hn _]; intro E; apply Hn; left; symmetry; exact E).
-    destruct (sem_ok_2q "SQRTISWAP" _ _ _ _ x y eq_refl eq_refl Hok eq_refl Hxy) as [ph [Hph E12]].
-    assert (Hfam : family_of (fst lb) = Some (mkCF "g" HXY (Mul (Num 2) Pi) INumCoupling [ILoop; IMod (IAdd ILoop (IConst 1)) IN])).
+    destruct (sem_ok_2q "SQRTISWAP" HXY (fam_scale "g") (area_of "SQRTISWAP") _ x y eq_refl eq_refl Hok eq_refl Hxy) as [ph [Hph E12]].
+    assert (Hfam : family_of (fst lb) = Some (mkCF "g" HXY (fam_scale "g") INumCoupling [ILoop; IMod (IAdd ILoop (IConst 1)) IN])).
     { unfold swap_compiler in Hc. destruct (swap_label c _) as [l0|] eqn:El; [|discriminate]. cbn [rbind] in Hc.
       assert (lb = l0).
       { repeat match type of Hc with rbind ?x _ = _ => destruct x; cbn [rbind] in Hc; [|discriminate] end.
@@ -189,7 +191,7 @@ Proof.
       destruct (_ =? 1)%Z; [|destruct (_ && _ && _)%bool; [|discriminate]];
         (destruct (ieval _ _); [|discriminate]; injection El as <-; cbn [fst]; rewrite family_g; reflexivity). }
     unfold pulse_sgate, native_sgate. cbn [g_name g_targets]. rewrite Hctl, Hfam.
-    change (method_area "SQRTISWAP") with (Some (Div (Neg (Num 1)) (Num 16))). cbn [cf_scale cf_kind] in Hph |- *. rewrite Hph.
+    change (method_area "SQRTISWAP") with (Some (area_of "SQRTISWAP")). cbn [cf_scale cf_kind] in Hph |- *. rewrite Hph.
     change (lib_matrix "SQRTISWAP") with (Some fn_sqrtiswap).
     eexists. eexists. split; [reflexivity|]. split; [reflexivity|].
     destruct (pair_of_minmax x y Hxy) as [[Ea Eb]|[Ea Eb]]; destruct Ho as [->| ->]; cbn [map]; rewrite Ea, Eb, !Nat2Z.id; intros R A; apply (E12 R A).
